@@ -5,9 +5,9 @@ from pyvc import terms as t
 from pyvc.values import *  # noqa
 from pyvc import ghost
 
-ROUNDTRIP = ['Padded', 'Aligned', 'FixedSized', 'Prefixed', 'Const', 'Flag', 'Bytes', 'GreedyBytes', 'BytesInteger', 'BitsInteger', 'Default', 'IfThenElse', 'Switch', 'Rebuild', 'Computed', 'Pass']
+ROUNDTRIP = ['Padded', 'Aligned', 'FixedSized', 'Prefixed', 'Const', 'Flag', 'Bytes', 'GreedyBytes', 'BytesInteger', 'BitsInteger', 'Default', 'IfThenElse', 'Switch', 'Rebuild', 'Computed', 'Pass', 'VarInt', 'ZigZag']
 SIZED = ['Padded', 'Aligned', 'FixedSized', 'Prefixed', 'Const', 'Flag', 'Bytes', 'BytesInteger', 'BitsInteger', 'FormatField', 'IfThenElse', 'Default', 'Switch', 'Rebuild', 'Computed', 'Pass', 'Tell', 'Index']
-CANONICAL = ['Padded', 'Aligned', 'FixedSized', 'Prefixed', 'Const', 'Flag', 'Bytes', 'GreedyBytes', 'BytesInteger', 'IfThenElse', 'Switch', 'Computed', 'Pass']
+CANONICAL = ['Padded', 'Aligned', 'FixedSized', 'Prefixed', 'Const', 'Flag', 'Bytes', 'GreedyBytes', 'BytesInteger', 'IfThenElse', 'Switch', 'Computed', 'Pass', 'VarInt']
 
 GREEDY = {'GreedyBytes'}
 FMT = [e + f for e in '<>=' for f in 'BHLQbhlq?']
@@ -87,6 +87,9 @@ from . import intlemmas as _il  # noqa
 ghost.HINTS['BytesInteger'] = _il.bytesinteger_hints
 ghost.HINTS['BitsInteger'] = _il.bitsinteger_hints
 DOMAIN['BitsInteger'] = _il.bitsinteger_domain
+from . import leblemmas as _ll  # noqa
+ghost.HINTS['VarInt'] = _ll.varint_hints(False)
+ghost.HINTS['ZigZag'] = _ll.varint_hints(True)
 
 
 def _nullterminated_hints(eng, st, args):
